@@ -210,6 +210,32 @@ theorem cas_counter {env : Env} {p : Bytes} {f : Nat → Option Json → Json} {
   obtain ⟨v, h1, h2⟩ := cas_no_lost_update hyp hs0 hv0 hV0 sched
   exact ⟨v, h1, chain_size f size hsz _ _ _ h2⟩
 
+/-- **reading changes nothing.** A GET (and HEAD or any other method the handlers answer 405)
+    to any path — /config/…, /id/…, /load, /adapt, anything else — leaves every global as it
+    was, whatever it answers. -/
+theorem read_request_changes_nothing (env : Env) (r : Req) (s : State)
+    (hm : r.method = .get ∨ r.method = .other) : (serve env r s).1 = s := by
+  have hcfg : ∀ p, (handleConfig env r p s).1 = s := by
+    intro p
+    unfold handleConfig
+    rcases hm with h | h <;> simp only [h]
+    · split <;> rfl
+  unfold serve
+  split
+  · rfl
+  · rfl
+  · exact hcfg _
+  · unfold handleLoad
+    rcases hm with h | h <;> simp [h]
+  · exact handleAdapt_pure env r s
+  · split
+    · rfl
+    · rfl
+    · split
+      · exact hcfg _
+      · rfl
+      · rfl
+
 /-! ### atomicity: the document, the index and the running apps always agree -/
 
 /-- **one document.** After any history: the tree GET reads from is the configuration that was
